@@ -843,7 +843,15 @@ func BuildOverlay(pkgs []*packages.Package, pinned map[string]bool) (map[string]
 				if !ok || fd.Body == nil {
 					continue
 				}
+				// a recursive new helper is not expanded into its own body
+				self, _ := pk.TypesInfo.Defs[fd.Name].(*types.Func)
+				if self != nil {
+					nz.busy[self] = true
+				}
 				edits = append(edits, nz.stmtEdits(pk, f, fd.Body)...)
+				if self != nil {
+					delete(nz.busy, self)
+				}
 			}
 			// flat views: a copy `<name>__flat` of a designated function with its private helpers inlined as well,
 			// placed on the line of the original's closing brace (all other positions stay as they are)
